@@ -178,7 +178,134 @@ fn replace_at(h: &H, path: &[usize], new: &H) -> H {
     replace_nth_child(h, path[0], &sub)
 }
 
+/// (6) directed let-abstraction: expressions whose subexpressions are heap values (records, lists, strings,
+/// functions) handed to order-sensitive built-ins, called, or compared. Every strict subexpression is named on its
+/// own, and every disjoint pair is named in both orders (which changes the order of allocation and nothing else).
+fn heap_elem(r: &mut Rng, depth: u32) -> String {
+    match r.below(if depth == 0 { 11 } else { 8 }) {
+        0 => format!("{{a: {}}}", r.below(3)),
+        1 => format!("{{b: {}, a: {}}}", r.below(3), r.below(2)),
+        2 => format!("[{}]", r.below(3)),
+        3 => "[]".to_string(),
+        4 => format!("\"s{}\"", r.below(3)),
+        5 => format!("{}", r.below(4)),
+        6 => format!("(q => q + {})", r.below(3)),
+        7 => (*r.pick(&["null", "true", "{}", "\"\""])).to_string(),
+        8 => format!("[{}, {}]", heap_elem(r, depth + 1), heap_elem(r, depth + 1)),
+        9 => format!("{{k: {}}}", heap_elem(r, depth + 1)),
+        _ => format!("[1, {}]", r.below(3)),
+    }
+}
+
+fn directed_expr(r: &mut Rng) -> String {
+    let n = 2 + r.below(4);
+    let elems: Vec<String> = (0..n).map(|_| heap_elem(r, 0)).collect();
+    let list = format!("[{}]", elems.join(", "));
+    match r.below(20) {
+        0 | 1 | 2 => format!("sort({})", list),
+        3 | 4 => format!("sort_by({}, e => e)", list),
+        5 => format!("sort_by({}, e => typeof(e))", list),
+        6 => format!("unique({})", list),
+        7 => format!("reverse({})", list),
+        8 => format!("group_by({}, e => typeof(e))", list),
+        9 => format!("count_by({}, e => typeof(e))", list),
+        10 => format!("concat({}, {})", list, list),
+        11 => format!("zip({}, {})", list, list),
+        12 => format!("{} .== {}", list, list),
+        13 => format!("{} where (e => typeof(e) == \"record\")", list),
+        14 => "(do {\n go = n => if n <= 1 then 1 else n * go(n - 1)\n return go\n})(5)".to_string(),
+        15 => format!("(do {{\n h = x => [x, {}]\n return h\n}})({})", elems[0], elems[1]),
+        16 => format!("[q => [q, {}]][0]({})", elems[0], elems[1]),
+        17 => format!("{{f: n => [n, {}]}}.f({})", elems[0], elems[1]),
+        18 => format!("((a, b) => [b, a])({}, {})", elems[0], elems[1]),
+        _ => format!("sort(unique(concat({}, reverse({}))))", list, list),
+    }
+}
+
+fn part_directed(ctx: &Ctx, sink: &mut Sink) {
+    let n = ctx.budget(6_000, 120_000);
+    for i in 0..n {
+        if !ctx.mine(i) {
+            continue;
+        }
+        let mut r = Rng::derive(ctx.seed, "c02-directed", i);
+        let src = directed_expr(&mut r);
+        let Ok(mut prog) = crate::rt::parse_program(&src) else {
+            sink.obs("directed-expression-unparsable", json!({"source": src}));
+            continue;
+        };
+        let e = prog.remove(0);
+        let base = {
+            let s = Sess::new();
+            s.rout(&s.eval(&print_min(&assign("res", e.clone()))))
+        };
+        let mut paths = Vec::new();
+        strict_paths(&e, &mut Vec::new(), &mut paths);
+        paths.retain(|p| !matches!(get_at(&e, p), H::Num(_) | H::Id(_) | H::Bool(_) | H::Null | H::BuiltIn(_) | H::InRef(_)));
+        sink.case(&format!("c02d|{}", src), matches!(base, ROut::Ok(_)) && paths.len() >= 2);
+        let mut report = |sink: &mut Sink, names: Vec<(String, String)>, abstracted: &H, got: &ROut| {
+            sink.viol(
+                "let-abstraction-differs directed",
+                "binding a subexpression to a fresh name and using the name in its place changes the result",
+                json!({"expression": src, "bindings_in_order": names, "abstracted": print_min(abstracted), "original_result": base.show(), "abstracted_result": got.show()}),
+            );
+        };
+        // single abstractions
+        for p in paths.iter() {
+            let sub = get_at(&e, p);
+            let s2 = Sess::new();
+            let t = s2.rout(&s2.eval(&print_min(&assign("t_abs", sub.clone()))));
+            if !matches!(t, ROut::Ok(_)) {
+                continue;
+            }
+            let replaced = replace_at(&e, p, &id("t_abs"));
+            let got = s2.rout(&s2.eval(&print_min(&assign("res", replaced.clone()))));
+            sink.count("directed_let_abstractions", 1);
+            if !base.agrees(&got) {
+                report(sink, vec![("t_abs".to_string(), print_min(&sub))], &replaced, &got);
+                break;
+            }
+        }
+        // disjoint pairs, bound in both orders
+        let mut pairs_done = 0;
+        'outer: for (ai, pa) in paths.iter().enumerate() {
+            for pb in paths.iter().skip(ai + 1) {
+                let disjoint = !(pa.starts_with(pb) || pb.starts_with(pa));
+                if !disjoint || pairs_done >= 6 {
+                    continue;
+                }
+                pairs_done += 1;
+                let (sa, sb) = (get_at(&e, pa), get_at(&e, pb));
+                let replaced = replace_at(&replace_at(&e, pa, &id("t_a")), pb, &id("t_b"));
+                for order in 0..2 {
+                    let s2 = Sess::new();
+                    let binds = if order == 0 { vec![("t_a", &sa), ("t_b", &sb)] } else { vec![("t_b", &sb), ("t_a", &sa)] };
+                    let mut ok = true;
+                    for (nm, sub) in binds.iter() {
+                        if !matches!(s2.rout(&s2.eval(&print_min(&assign(nm, (*sub).clone())))), ROut::Ok(_)) {
+                            ok = false;
+                        }
+                    }
+                    if !ok {
+                        continue;
+                    }
+                    let got = s2.rout(&s2.eval(&print_min(&assign("res", replaced.clone()))));
+                    sink.count("directed_let_abstraction_pairs", 1);
+                    if !base.agrees(&got) {
+                        report(sink, binds.iter().map(|(n, s)| (n.to_string(), print_min(s))).collect(), &replaced, &got);
+                        break 'outer;
+                    }
+                }
+            }
+        }
+        if sink.want_sample() && paths.len() >= 3 {
+            sink.sample(json!({"part": "directed let-abstraction", "expression": src, "result": base.show(), "subexpressions_named": paths.len()}));
+        }
+    }
+}
+
 pub fn run(ctx: &Ctx, sink: &mut Sink) {
+    part_directed(ctx, sink);
     let cli = ctx.opt("cli").map(|s| s.to_string());
     let n = ctx.budget(16_000, 200_000);
     for i in 0..n {
